@@ -1,4 +1,5 @@
 """C16 — custom schema types behave like built-ins in every position."""
+from ..common import safe_repr
 from .. import conforms, encode, model, rebuild, runner, scripted_random as SR, sexp, valcases, valcorr, gen_value
 from ..common import d42  # noqa: F401
 from d42 import optional, schema, substitute, validate
@@ -53,11 +54,11 @@ def run(ctx):
         except Exception as e:  # noqa: BLE001
             # wrapping is `CustomSchema()(inner)` + `props.update(...)` on the tree under test: it never fails on the unchanged tree
             ctx.breakage("correspondence", "wrapping the sub-schemas of a schema in a forwarding custom type raised "
-                         + type(e).__name__, schema=repr(s)[:400], exception=repr(e)[:300])
+                         + type(e).__name__, schema=safe_repr(s)[:400], exception=safe_repr(e)[:300])
             continue
-        ctx.case(repr(s) + str(nwrapped), nwrapped > 0)
+        ctx.case(safe_repr(s) + str(nwrapped), nwrapped > 0)
         ctx.count("wrapped_nodes", nwrapped)
-        info = dict(plain=repr(s), wrapped_nodes=nwrapped)
+        info = dict(plain=safe_repr(s), wrapped_nodes=nwrapped)
         # 1. printed form identical at several indents
         for ind in (0, 4):
             try:
@@ -80,7 +81,7 @@ def run(ctx):
             except encode.Unencodable:
                 continue
             except Exception as e:  # noqa: BLE001
-                ctx.violation("validate raised on the wrapped tree: " + type(e).__name__, value=repr(v), **info)
+                ctx.violation("validate raised on the wrapped tree: " + type(e).__name__, value=safe_repr(v), **info)
                 continue
             ctx.count("validate_pairs")
             # mismatch errors list the alternative schemas, which legitimately print the wrapper's inner: compare after
@@ -88,19 +89,19 @@ def run(ctx):
             e2 = [x.replace("(custom ", "(custom_ ") for x in e2]
             e1n = [x for x in e1]
             if strip_custom(e2) != e1n:
-                ctx.violation("validation errors/paths differ when sub-schemas are wrapped", value=repr(v),
+                ctx.violation("validation errors/paths differ when sub-schemas are wrapped", value=safe_repr(v),
                               plain_errors=e1[:4], wrapped_errors=e2[:4], **info)
             # the caller's own root path (validate(..., path=PathHolder("body"))) is used by a wrapped root as by a plain one
             try:
                 from th import PathHolder
-                r1 = [(type(e).__name__, repr(e.path)) for e in validate(s, v, path=PathHolder("body")).get_errors()]
-                r2 = [(type(e).__name__, repr(e.path)) for e in validate(ws, v, path=PathHolder("body")).get_errors()]
+                r1 = [(type(e).__name__, safe_repr(e.path)) for e in validate(s, v, path=PathHolder("body")).get_errors()]
+                r2 = [(type(e).__name__, safe_repr(e.path)) for e in validate(ws, v, path=PathHolder("body")).get_errors()]
                 ctx.count("named_root_path_pairs")
                 if sorted(r1) != sorted(r2):
                     ctx.violation("error paths differ under a caller-supplied root path when sub-schemas are wrapped",
-                                  value=repr(v), plain_paths=r1[:4], wrapped_paths=r2[:4], **info)
+                                  value=safe_repr(v), plain_paths=r1[:4], wrapped_paths=r2[:4], **info)
             except Exception as e:  # noqa: BLE001
-                ctx.violation("validate with a caller-supplied root path raised " + type(e).__name__, value=repr(v), **info)
+                ctx.violation("validate with a caller-supplied root path raised " + type(e).__name__, value=safe_repr(v), **info)
             c = valcorr.ValCase(ws, v, "wrapped")
             valcorr.run_real(c)
             valcorr.prepare(c)
@@ -113,8 +114,8 @@ def run(ctx):
             (k2, v2), log2 = SR.generate(ws, SR.make_policy(pol, ctx.rnd))
             ctx.count("gen_pairs")
             if k1 != k2 or (k1 == "ok" and not same_value(v1, v2)) or (k1 == "exc" and type(v1) is not type(v2)):
-                ctx.violation("generation differs when sub-schemas are wrapped", policy=pol, plain=repr(v1),
-                              wrapped=repr(v2), **{k: v for k, v in info.items() if k != "plain"}, plain_schema=repr(s))
+                ctx.violation("generation differs when sub-schemas are wrapped", policy=pol, plain=safe_repr(v1),
+                              wrapped=safe_repr(v2), **{k: v for k, v in info.items() if k != "plain"}, plain_schema=safe_repr(s))
             elif k2 == "ok":
                 try:
                     rejected = conforms.conforms(s, w) and validate(s, v1).has_errors() is False and validate(ws, v2).has_errors()
@@ -122,7 +123,7 @@ def run(ctx):
                     ctx.count("validate_raised")
                     rejected = False
                 if rejected:
-                    ctx.violation("a value generated from the wrapped tree is rejected by it", value=repr(v2), **info)
+                    ctx.violation("a value generated from the wrapped tree is rejected by it", value=safe_repr(v2), **info)
         # 4. substitution succeeds / fails identically and results agree after erasing
         from ..substcorr import ellipsize, partial
         for v in vals[:6] + [..., ellipsize(w, ctx.rnd), partial(w, ctx.rnd), [...], {"a": ...}]:
@@ -130,25 +131,25 @@ def run(ctx):
             r2 = try_subst(ws, v)
             ctx.count("subst_pairs")
             if r1[0] != r2[0] or (r1[0] == "exc" and r1[1] != r2[1]):
-                ctx.violation("substitution outcome differs when sub-schemas are wrapped", value=repr(v),
-                              plain_outcome=repr(r1), wrapped_outcome=repr(r2), **info)
+                ctx.violation("substitution outcome differs when sub-schemas are wrapped", value=safe_repr(v),
+                              plain_outcome=safe_repr(r1), wrapped_outcome=safe_repr(r2), **info)
             elif r1[0] == "ok":
                 # compared structurally (encodings) and by printed form; `==` is false for NaN values (K6)
                 def enc(x):
                     try:
                         return sexp.dumps(encode.enc_schema(x, encode.Interner()))
                     except Exception:
-                        return repr(x)
-                if enc(rebuild.erase_custom(r2[1])) != enc(r1[1]) or repr(r2[1]) != repr(r1[1]):
+                        return safe_repr(x)
+                if enc(rebuild.erase_custom(r2[1])) != enc(r1[1]) or safe_repr(r2[1]) != safe_repr(r1[1]):
                     ctx.violation("substitution result differs (after erasing wrappers) from the plain result",
-                                  value=repr(v), plain_result=repr(r1[1]), wrapped_result=repr(r2[1]), **info)
+                                  value=safe_repr(v), plain_result=safe_repr(r1[1]), wrapped_result=safe_repr(r2[1]), **info)
     dis = valcorr.compare(cases, ctx, view="errors")
     for c, detail in dis[:10]:
         ctx.breakage("correspondence", "model (custom = transparent) and code disagree on a wrapped tree",
-                     schema=repr(c.schema), value=repr(c.value), detail=detail, request=c.req)
+                     schema=safe_repr(c.schema), value=safe_repr(c.value), detail=detail, request=c.req)
     ctx.cov["corr_disagreements"] = len(dis)
     for s, w in batch[:3]:
-        ctx.sample({"schema": repr(s), "witness": repr(w)})
+        ctx.sample({"schema": safe_repr(s), "witness": safe_repr(w)})
 
 
 def directed_positions(ctx):
@@ -183,7 +184,7 @@ def directed_positions(ctx):
             except Exception:  # noqa: BLE001
                 ctx.count("directed_positions_not_declarable")
                 continue
-            info = dict(plain=repr(s), position=pname, wrapped_nodes=1, custom_class=type(wrapper(leaf)).__name__)
+            info = dict(plain=safe_repr(s), position=pname, wrapped_nodes=1, custom_class=type(wrapper(leaf)).__name__)
             if s.__accept__(R, indent=0) != ws.__accept__(R, indent=0):
                 ctx.violation("printed form differs when sub-schemas are wrapped in a forwarding custom type", **info)
             for lv in lvals:
@@ -195,19 +196,19 @@ def directed_positions(ctx):
                     e2 = sorted(err_key(e, I) for e in validate(ws, v).get_errors())
                     e2 = strip_custom([x.replace("(custom ", "(custom_ ") for x in e2])
                     if e1 != e2:
-                        ctx.violation("validation errors/paths differ when sub-schemas are wrapped", value=repr(v),
+                        ctx.violation("validation errors/paths differ when sub-schemas are wrapped", value=safe_repr(v),
                                       plain_errors=e1[:4], wrapped_errors=e2[:4], **info)
                 except encode.Unencodable:
                     pass
                 except Exception as e:  # noqa: BLE001
-                    ctx.violation("validate raised on the wrapped tree: " + type(e).__name__, value=repr(v), **info)
+                    ctx.violation("validate raised on the wrapped tree: " + type(e).__name__, value=safe_repr(v), **info)
                 r1, r2 = try_subst(s, v), try_subst(ws, v)
                 if r1[0] != r2[0] or (r1[0] == "exc" and r1[1] != r2[1]):
-                    ctx.violation("substitution outcome differs when sub-schemas are wrapped", value=repr(v),
-                                  plain_outcome=repr(r1), wrapped_outcome=repr(r2), **info)
-                elif r1[0] == "ok" and repr(r2[1]) != repr(r1[1]):
+                    ctx.violation("substitution outcome differs when sub-schemas are wrapped", value=safe_repr(v),
+                                  plain_outcome=safe_repr(r1), wrapped_outcome=safe_repr(r2), **info)
+                elif r1[0] == "ok" and safe_repr(r2[1]) != safe_repr(r1[1]):
                     ctx.violation("substitution result differs (after erasing wrappers) from the plain result",
-                                  value=repr(v), plain_result=repr(r1[1]), wrapped_result=repr(r2[1]), **info)
+                                  value=safe_repr(v), plain_result=safe_repr(r1[1]), wrapped_result=safe_repr(r2[1]), **info)
 
 
 def faulting_probes(ctx):
@@ -237,24 +238,24 @@ def faulting_probes(ctx):
                     continue
                 v = mv(mkv(exc))
                 ctx.count("faulting_probe_cases")
-                info = dict(plain=repr(s), position=pname, wrapped_nodes=1, value=repr(v))
+                info = dict(plain=safe_repr(s), position=pname, wrapped_nodes=1, value=safe_repr(v))
                 r1, r2 = try_subst(s, v), try_subst(ws, v)
                 if r1[0] != r2[0] or (r1[0] == "exc" and r1[1] != r2[1]):
-                    ctx.violation("substitution outcome differs when sub-schemas are wrapped", plain_outcome=repr(r1)[:200],
-                                  wrapped_outcome=repr(r2)[:200], **info)
-                elif r1[0] == "ok" and repr(rebuild.erase_custom(r2[1])) != repr(r1[1]):
+                    ctx.violation("substitution outcome differs when sub-schemas are wrapped", plain_outcome=safe_repr(r1)[:200],
+                                  wrapped_outcome=safe_repr(r2)[:200], **info)
+                elif r1[0] == "ok" and safe_repr(rebuild.erase_custom(r2[1])) != safe_repr(r1[1]):
                     ctx.violation("substitution result differs (after erasing wrappers) from the plain result",
-                                  plain_result=repr(r1[1]), wrapped_result=repr(r2[1]), **info)
+                                  plain_result=safe_repr(r1[1]), wrapped_result=safe_repr(r2[1]), **info)
 
                 def val(t):
                     try:
-                        return ("ok", sorted(repr((type(e).__name__, repr(e.path))) for e in validate(t, v).get_errors()))
+                        return ("ok", sorted(safe_repr((type(e).__name__, safe_repr(e.path))) for e in validate(t, v).get_errors()))
                     except Exception as e:  # noqa: BLE001
                         return ("exc", type(e).__name__)
                 v1, v2 = val(s), val(ws)
                 if v1 != v2:
-                    ctx.violation("validation outcome differs when sub-schemas are wrapped", plain_outcome=repr(v1)[:200],
-                                  wrapped_outcome=repr(v2)[:200], **info)
+                    ctx.violation("validation outcome differs when sub-schemas are wrapped", plain_outcome=safe_repr(v1)[:200],
+                                  wrapped_outcome=safe_repr(v2)[:200], **info)
 
 
 def deep_forwarders(ctx):
@@ -283,17 +284,17 @@ def deep_forwarders(ctx):
         except Exception:  # noqa: BLE001
             ctx.count("deep_forwarders_not_declarable")
             continue
-        info = dict(plain=repr(s)[:300], wrapped_nodes=n + 1, depth=n)
+        info = dict(plain=safe_repr(s)[:300], wrapped_nodes=n + 1, depth=n)
         ctx.count("deep_forwarder_cases")
         try:
             if s.__accept__(R, indent=0) != ws.__accept__(R, indent=0):
                 ctx.violation("printed form differs when sub-schemas are wrapped in a forwarding custom type", **info)
             for v in (w, gen_value.perturb(w, ctx.rnd)[:6]):
                 for x in ([v] if v is w else v):
-                    e1 = sorted(repr((type(e).__name__, repr(e.path))) for e in validate(s, x).get_errors())
-                    e2 = sorted(repr((type(e).__name__, repr(e.path))) for e in validate(ws, x).get_errors())
+                    e1 = sorted(safe_repr((type(e).__name__, safe_repr(e.path))) for e in validate(s, x).get_errors())
+                    e2 = sorted(safe_repr((type(e).__name__, safe_repr(e.path))) for e in validate(ws, x).get_errors())
                     if e1 != e2:
-                        ctx.violation("validation errors/paths differ when sub-schemas are wrapped", value=repr(x)[:200], plain_errors=e1[:3],
+                        ctx.violation("validation errors/paths differ when sub-schemas are wrapped", value=safe_repr(x)[:200], plain_errors=e1[:3],
                                       wrapped_errors=e2[:3], **info)
             for pol in ("lo", "hi", "rnd"):
                 st = ctx.rnd.getstate()
@@ -301,13 +302,13 @@ def deep_forwarders(ctx):
                 ctx.rnd.setstate(st)
                 (k2, v2), _ = SR.generate(ws, SR.make_policy(pol, ctx.rnd))
                 if k1 != k2 or (k1 == "ok" and not same_value(v1, v2)):
-                    ctx.violation("generation differs when sub-schemas are wrapped", policy=pol, plain=repr(v1)[:200], wrapped=repr(v2)[:200], **info)
+                    ctx.violation("generation differs when sub-schemas are wrapped", policy=pol, plain=safe_repr(v1)[:200], wrapped=safe_repr(v2)[:200], **info)
             r1, r2 = try_subst(s, w), try_subst(ws, w)
-            if r1[0] != r2[0] or (r1[0] == "ok" and repr(r1[1]) != repr(r2[1])):
-                ctx.violation("substitution outcome differs when sub-schemas are wrapped", value=repr(w)[:200], plain_outcome=repr(r1)[:200],
-                              wrapped_outcome=repr(r2)[:200], **info)
+            if r1[0] != r2[0] or (r1[0] == "ok" and safe_repr(r1[1]) != safe_repr(r2[1])):
+                ctx.violation("substitution outcome differs when sub-schemas are wrapped", value=safe_repr(w)[:200], plain_outcome=safe_repr(r1)[:200],
+                              wrapped_outcome=safe_repr(r2)[:200], **info)
         except Exception as e:  # noqa: BLE001
-            ctx.violation("an operation raised on a deep chain of forwarding custom types: " + type(e).__name__, exception=repr(e)[:300], **info)
+            ctx.violation("an operation raised on a deep chain of forwarding custom types: " + type(e).__name__, exception=safe_repr(e)[:300], **info)
 
 
 def strip_custom(keys):
